@@ -185,6 +185,7 @@ class ClassRef:
     def __init__(self, node, module):
         self.node, self.module, self.name, self.fq = node, module, node.name, f'{module.fq}.{node.name}'
         self._consts = {}
+        self._stored = None
 
     def bases(self):
         out = []
@@ -216,13 +217,15 @@ class ClassRef:
 
     def stores_attr(self, name):
         """some method of the class (or a base) assigns `<obj>.name`"""
-        for c in self.mro():
-            for n in ast.walk(c.node):
-                if isinstance(n, ast.Attribute) and n.attr == name and isinstance(n.ctx, (ast.Store, ast.Del)):
-                    return True
-                if isinstance(n, ast.Call) and ast.unparse(n.func) == 'setattr':
-                    return True
-        return False
+        if self._stored is None:
+            self._stored = set()
+            for c in self.mro():
+                for n in ast.walk(c.node):
+                    if isinstance(n, ast.Attribute) and isinstance(n.ctx, (ast.Store, ast.Del)):
+                        self._stored.add(n.attr)
+                    if isinstance(n, ast.Call) and isinstance(n.func, ast.Name) and n.func.id == 'setattr':
+                        self._stored.add('*')
+        return name in self._stored or '*' in self._stored
 
     def find_const(self, name, instance=False):
         """class-level `NAME = <expr>` (through the bases) → term or None.  `instance`: read through an instance — only
@@ -419,6 +422,17 @@ class Repo:
         m = self.module(modfq)
         t = m.lookup(name) if m is not None else None
         return t.a[0] if t is not None and t.op == 'cls' else None
+
+
+_REPOS = {}
+
+
+def shared_repo(root):
+    """one `Repo` per checkout and process (the plug-ins of one extractor run share the parsed modules)"""
+    k = str(Path(root).resolve())
+    if k not in _REPOS:
+        _REPOS[k] = Repo(root)
+    return _REPOS[k]
 
 
 # ------------------------------------------------------------------ events
